@@ -463,7 +463,7 @@ func build(sw *sim.World) {
 	sw.Notef("W-JOIN: %d devices, %d network-server tasks, faults=%v", nDev, nNS, w.faults)
 	for i := 0; i < nNS; i++ {
 		i := i
-		n := 2 + simrt.Choose(12)
+		n := 2 + simrt.Choose(12*sim.Scale)
 		sub := simrt.Raw()
 		sw.Spawn(fmt.Sprintf("ns%d", i), func() { nsTask(w, i, netIDs[i], senderIDs[i], n, sub) })
 	}
@@ -808,8 +808,8 @@ func doRequest(w *world, r *sim.Rand, rq *request, c *reqCtx, faults, live bool)
 		if rc == "" {
 			rc = res.ResultCode
 		}
-		if rc == backend.Success || code < 400 {
-			simrt.Report("j3.malformed-accepted", fmt.Sprintf("malformed request (kind %d, body error at %d) answered with HTTP %d %s: %s", rq.rawKind, c.bodyErrAt, code, rc, firstN(out, 300)))
+		if rc == backend.Success {
+			simrt.Report("j3.malformed-accepted", fmt.Sprintf("malformed request (kind %d, body error at %d) answered Success (HTTP %d): %s", rq.rawKind, c.bodyErrAt, code, firstN(out, 300)))
 		}
 		return
 	}
